@@ -41,7 +41,7 @@ func newWorldFn(mut func(*op.Config), issuerFn func(bool) (op.IssuerFromRequest,
 		c := vclient.Confidential(id, secret, redirectsOf(id)...)
 		c.Auth = auth
 		c.RespTypes = []oidc.ResponseType{oidc.ResponseTypeCode, oidc.ResponseTypeIDToken, oidc.ResponseTypeIDTokenOnly}
-		c.Grants = []oidc.GrantType{oidc.GrantTypeCode, oidc.GrantTypeRefreshToken, oidc.GrantTypeBearer, oidc.GrantTypeImplicit}
+		c.Grants = []oidc.GrantType{oidc.GrantTypeCode, oidc.GrantTypeRefreshToken, oidc.GrantTypeBearer, oidc.GrantTypeImplicit, oidc.GrantTypeDeviceCode}
 		w.Store.AddClient(c)
 		cl[id] = c
 	}
@@ -72,6 +72,8 @@ func honestAuth(w *opdrv.World, cl map[string]*vclient.Client, id string, r *ran
 		rk := poolByName["A.ec"]
 		s.Signer, s.Kid, s.Alg = rk.Name, rk.Kid, "ES256"
 	}
+	// scene credentials must not depend on how long the scene takes on a loaded machine
+	s.IatOff, s.ExpOff = -5, 1800
 	return opdrv.AssertionAuth(s.build())
 }
 
@@ -131,10 +133,6 @@ func endpointCase(run *ev.Run, i int) {
 	}
 	atype := pick(r, "ok", "ok", "ok", "ok", "ok", "ok", "ok", "ok", "absent", "wrong")
 	var tok string
-	if pi := mon.Catch(func() { tok = s.build() }); pi != nil {
-		run.HarnessBug("token builder panicked: " + pi.Value)
-		return
-	}
 	form := url.Values{}
 	path := "/oauth/token"
 	var scene *opdrv.Tokens
@@ -174,7 +172,6 @@ func endpointCase(run *ev.Run, i int) {
 			}
 		case "jwt-bearer":
 			form.Set("grant_type", string(oidc.GrantTypeBearer))
-			form.Set("assertion", tok)
 			form.Set("scope", "openid profile")
 		}
 		return true
@@ -190,6 +187,15 @@ func endpointCase(run *ev.Run, i int) {
 	}
 	if !okSetup {
 		return
+	}
+	// the assertion under test is dated and signed only now, after the scene (whose duration depends on machine load)
+	s.Base = time.Now().Round(time.Second).Unix()
+	if pi := mon.Catch(func() { tok = s.build() }); pi != nil {
+		run.HarnessBug("token builder panicked: " + pi.Value)
+		return
+	}
+	if surface == "jwt-bearer" {
+		form.Set("assertion", tok)
 	}
 	if surface != "jwt-bearer" {
 		form.Set("client_assertion", tok)
